@@ -6,7 +6,7 @@
         // (unless rsync is disabled altogether)
         self.collector.command is Some ==> in_updated(run_of(&self.updated), uri.module_spec()),
         final(clk).now >= old(clk).now,
-//@ closure 1
+//@ closure then 1 optional
 || -> (r: FmtArgs)
 //@ exit
         // C37: the mutex taken from `running` is held until the function returns: `_lock` is the guard
